@@ -10,5 +10,7 @@ def run(ctx):
     contexts(ctx)        # 'the current input with its parents': every option position sees the same context derivations
     regex_cache(ctx)
     function_names(ctx)
+    from ..scen_purity import getter_purity
+    getter_purity(ctx)       # a getter that keeps state (cell, thread-local, static) must still be a function of its arguments
     from ..conform import conformance
     conformance(ctx, ['binding'])      # the references the obligations are stated against, compared with jawk::go on concrete runs (validates the oracles; never decides)
